@@ -15,6 +15,8 @@ TClauses(c) ==
   IN F("terminates", c.parse.cls = "timeout" \/ c.run.cls = "timeout")
      \cup F("error_type", c.parse.cls \notin (Allowed \cup {"timeout"}) \/ c.run.cls \notin (Allowed \cup {"timeout"}))
      \cup F("syntax_is_parse_error", synbad /\ (c.parse.cls # "parse_error" \/ c.run.cls # "parse_error"))
+     \* (history independence on the caller's side: the same gate-set dictionary handed to every call of the process)
+     \cup F("shared_gateset_same", c.shared.cls # c.shared.fresh_cls \/ ~c.shared.unchanged)
      \cup F("has_position", (c.parse.cls = "parse_error" /\ ~c.parse.haspos) \/ (c.run.cls = "parse_error" /\ ~c.run.haspos))
      \* (an integer literal of more than 4300 digits is grammatical, but the host language cannot convert it: the
      \*  implementation refuses it with a JaqalParseError at the literal - a JaqalError with a position, which C16 allows)
